@@ -46,11 +46,12 @@ def wrapper_line(inst):
     loc = " ".join(LOCAL[k] % (n, n) for k, n in inst.args if k in LOCAL)
     if inst.ret == "void":
         body = "%s %s;" % (inst.pre, inst.body)
-    elif inst.ret in ("V", "M", "V2", "M2"):
+    elif inst.ret in ("V", "M", "V2", "M2") or getattr(inst, "rettype", None):
         body = "%s return avel::decay(%s);" % (inst.pre, inst.body)
     else:
         body = "%s return %s;" % (inst.pre, inst.body)
-    return 'extern "C" %s %s(%s) { %s %s }' % (RET[inst.ret], inst.fname, ps, loc, body)
+    rt = getattr(inst, "rettype", None) or RET[inst.ret]
+    return 'extern "C" %s %s(%s) { %s %s }' % (rt, inst.fname, ps, loc, body)
 
 
 def header(vt, extra=()):
@@ -589,7 +590,232 @@ def fam_memory(vt, cfg):
     return I
 
 
+# ---------------------------------------------------------------------------
+# C17 conversions
+
+def _tname(kind, eb, n):
+    return "vec%dx%d%s" % (n, eb, kind)
+
+
+def fam_convert(vt, cfg):
+    I = []
+    n, eb = vt.n, vt.eb
+    A = [("V", "a")]
+    Mm = [("M", "m")]
+
+    def conv(name, body, target, expect, args=A, mask=False, optional=False):
+        i = Inst(name, args, "M" if mask else "V", body, expect, param=target)
+        i.rettype = "avel::%s::primitive" % (target.replace("vec", "mask") if mask else target)
+        i.fname = "w_%s_%s" % (name, target)
+        i.optional = optional
+        i.target = target
+        I.append(i)
+    ident = lambda c: c.args["a"]
+    conv("convert", "avel::convert<avel::%s>(a)[0]" % vt.name, vt.name, ident)
+    mident = lambda c: c.pack_mask(c.mbits("m"))
+    conv("mconvert", "avel::convert<avel::%s>(m)[0]" % vt.mask, vt.name, mident, Mm, True)
+    if vt.is_int:
+        other = _tname("u" if vt.signed else "i", eb, n)
+        conv("convert", "avel::convert<avel::%s>(a)[0]" % other, other, ident)
+        conv("ctor", "avel::%s{a}" % other, other, ident)
+        om = other.replace("vec", "mask")
+        conv("mconvert", "avel::convert<avel::%s>(m)[0]" % om, other, mident, Mm, True)
+        conv("mctor", "avel::%s{m}" % om, other, mident, Mm, True)
+    if n == 1 and vt.is_int:
+        for k2 in "ui":
+            for eb2 in (8, 16, 32, 64):
+                t = _tname(k2, eb2, 1)
+                if t == vt.name or (eb2 == eb):
+                    continue
+
+                def e(c, eb2=eb2):
+                    x = c.args["a"]
+                    if eb2 <= c.vt.eb:
+                        return T.slice_(x, 0, eb2)
+                    return (T.sext if c.vt.signed else T.zext)(x, eb2)
+                conv("convert", "avel::convert<avel::%s>(a)[0]" % t, t, e, optional=True)
+                conv("ctor", "avel::%s{a}" % t, t, e, optional=True)
+                conv("mconvert", "avel::convert<avel::%s>(m)[0]" % t.replace("vec", "mask"), t, mident, Mm, True, optional=True)
+    # bit_cast between types of identical size
+    for k2 in "uif":
+        for eb2 in (8, 16, 32, 64):
+            if k2 == "f" and eb2 < 32:
+                continue
+            if (n * eb) % eb2:
+                continue
+            n2 = n * eb // eb2
+            t = _tname(k2, eb2, n2)
+            if t == vt.name or n2 > 64:
+                continue
+            if n == 1 and n2 != 1:
+                continue
+            conv("bit_cast", "avel::bit_cast<avel::%s>(a)" % t, t, ident, optional=True)
+    return I
+
+
+# ---------------------------------------------------------------------------
+# C13 classification / quiet comparisons, C11 rounding
+
+def judge_fpclass(fn):
+    from common import HOLDS, REFUTED, UNDECIDED
+    import fieldproof
+
+    def j(ctx, inst, S):
+        vt = ctx.vt
+        eb = vt.eb
+        rule = ("%s: lane predicate decided on the finite partition sign x exponent x mantissa-interval "
+                "induced by its field-aligned atoms, against the C library classification" % fn)
+        if S.flags & {"loop", "call", "unknown-effect", "asm"} or S.ret is None:
+            return UNDECIDED, "unmodelled %s %s" % (sorted(S.flags), S.unknown[:2]), rule, None
+        actual = S.ret
+        k = ctx.argidx["a"]
+        ismask = inst.ret == "M"
+        total = 0
+        for i in range(vt.n):
+            if ismask:
+                rep = ctx.retrep
+                if rep[0] == "lane":
+                    lane = T.slice_(actual, i * rep[1], rep[1])
+                    if not (lane[0] == "rep" or lane[1] == 1 or lane[0] == "const"):
+                        return UNDECIDED, "mask lane %d not uniform: %s" % (i, T.show(lane, 3, ctx.names)), rule, None
+                    bit = T.slice_(lane, 0, 1)
+                elif rep[0] == "k":
+                    bit = T.slice_(actual, i, 1)
+                else:
+                    bit = actual
+                lt, rb = bit, 1
+            else:
+                lt, rb = T.slice_(actual, i * eb, eb), eb
+            v, info = fieldproof.decide(lt, k, i * eb, eb, fn, rb)
+            if v == "REFUTED":
+                info["lane"] = i
+                return REFUTED, T.show(lt, 5, ctx.names), rule, info
+            if v == "UNDECIDED":
+                return UNDECIDED, "%s ; %s" % (info, T.show(lt, 4, ctx.names)), rule, None
+            total += info
+        if ismask and ctx.retrep[0] == "k" and actual[1] > vt.n and not T.is_zero(T.slice_(actual, vt.n, actual[1] - vt.n)):
+            return UNDECIDED, "upper k-mask bits not provably zero", rule, None
+        if S.unknown:
+            return UNDECIDED, "unmodelled %s" % S.unknown[:2], rule, None
+        return HOLDS, "%d partition cells evaluated; %s" % (total, T.show(T.slice_(actual, 0, min(actual[1], eb)), 3, ctx.names)), rule, None
+    return j
+
+
+def fam_fpclass(vt, cfg):
+    if not vt.is_float:
+        return []
+    I = []
+    A = [("V", "a")]
+    it = "vec%dx%di" % (vt.n, vt.eb)
+    x = Inst("fpclassify", A, "V", "avel::fpclassify(a)", None, judge=judge_fpclass("fpclassify"))
+    x.rettype = "avel::%s::primitive" % it
+    I.append(x)
+    for fn in ("isnan", "isinf", "isfinite", "isnormal", "signbit"):
+        I.append(Inst(fn, A, "M", "avel::%s(a)" % fn, None, judge=judge_fpclass(fn)))
+    for fn, p in (("isgreater", "ogt"), ("isgreaterequal", "oge"), ("isless", "olt"), ("islessequal", "ole"),
+                  ("islessgreater", "one"), ("isunordered", "uno")):
+        I.append(Inst(fn, VV, "M", "avel::%s(a, b)" % fn, cmpmask(lambda c, p=p: p)))
+    return I
+
+
+ROUND_VALUES = {   # f(2.5), f(-2.5), f(3.5) ; rint under (nearest, upward, downward, toward zero)
+    "call:llvm.ceil": (3, -2, 4), "call:llvm.floor": (2, -3, 3), "call:llvm.trunc": (2, -2, 3),
+    "call:llvm.roundeven": (2, -2, 4), "call:llvm.round": (3, -3, 4)}
+
+
+def judge_round(ctx, inst, S):
+    """default normal-form comparison; a different single rounding primitive on the same lane is
+    refuted from the table of their values at 2.5 / -2.5 / 3.5 (rint: by rounding mode)"""
+    import runner
+    from common import REFUTED, UNDECIDED
+    v, detail, rule, wit = runner.judge_default(ctx, inst, S)
+    if v != UNDECIDED or S.ret is None:
+        return v, detail, rule, wit
+    eb = ctx.vt.eb
+    want = T.slice_(inst.expect(ctx), 0, eb)
+    got = T.slice_(S.ret, 0, eb)
+    if got[0].startswith("call:llvm.") and want[0].startswith("call:llvm.") and got[0] != want[0] \
+            and len(got) == 3 and got[2] is want[2]:
+        g, w = got[0], want[0]
+        if "rint" in (g[10:], w[10:]):
+            other = g if w.endswith("rint") else w
+            mode = {"call:llvm.ceil": "FE_DOWNWARD", "call:llvm.floor": "FE_UPWARD", "call:llvm.trunc": "FE_UPWARD",
+                    "call:llvm.roundeven": "FE_UPWARD", "call:llvm.round": "FE_DOWNWARD"}.get(other)
+            if mode:
+                return REFUTED, T.show(got, 3, ctx.names), rule, {
+                    "lane_value": 2.5, "rounding_mode": mode,
+                    "note": "%s is mode-independent, rint/nearbyint follow the current mode" % other[5:]}
+        elif g in ROUND_VALUES and w in ROUND_VALUES:
+            for x, a_, b_ in zip((2.5, -2.5, 3.5), ROUND_VALUES[g], ROUND_VALUES[w]):
+                if a_ != b_:
+                    return REFUTED, T.show(got, 3, ctx.names), rule, {"lane_value": x, "got": a_, "expected": b_}
+    return v, detail, rule, wit
+
+
+def fam_round(vt, cfg):
+    if not vt.is_float:
+        return []
+    I = []
+    A = [("V", "a")]
+    for fn, nm in (("ceil", "call:llvm.ceil"), ("floor", "call:llvm.floor"), ("trunc", "call:llvm.trunc"),
+                   ("round", "call:llvm.round"), ("nearbyint", "call:llvm.rint"), ("rint", "call:llvm.rint")):
+        I.append(Inst(fn, A, "V", "avel::%s(a)" % fn, lanewise1(lambda c, x, nm=nm: T.op(nm, c.vt.eb, x)),
+                      judge=judge_round))
+    return I
+
+
+# ---------------------------------------------------------------------------
+# C11 (second clause): no operation leaves MXCSR control bits / fenv changed
+
+FENV_WRITERS = {"fesetround", "fesetenv", "feupdateenv", "feholdexcept", "fesetexceptflag", "_controlfp",
+                "__fesetround", "fedisableexcept", "feenableexcept"}
+
+
+def judge_fenv(ctx, inst, S):
+    from common import HOLDS, REFUTED, UNDECIDED
+    rule = ("effect inventory: every MXCSR writer writes back the control bits (DAZ 6, masks 7-12, RC 13-14, "
+            "FTZ 15) it read; no fenv writer call, no asm touching MXCSR/x87 CW")
+    for name, args, loc in S.calls:
+        if name in FENV_WRITERS:
+            return REFUTED, "calls %s" % name, rule, {"note": "rounding mode / environment writer reachable"}
+    for e in S.effects:
+        if e[0] == "asm":
+            if any(k in e[1] for k in ("mxcsr", "fldcw", "fnstcw", "fldenv")):
+                return REFUTED, "inline asm touches the FP control word: %s" % e[1][:60], rule, None
+            return UNDECIDED, "inline asm: %s" % e[1][:60], rule, None
+    if "indirect-call" in S.flags:
+        return UNDECIDED, "indirect call", rule, None
+    ext = [n for n, a, l in S.calls if not n.startswith("_ZN4avel") and n not in __import__("irterm").LIBM_PURE
+           and n not in ("memcpy", "memset", "memmove")]
+    final = getattr(S, "mxcsr", None)
+    if final is None:
+        if "loop" in S.flags:
+            # loops contain no MXCSR writer either (effects are collected per instruction)
+            pass
+        if ext:
+            return UNDECIDED, "external call(s) %s" % sorted(set(ext))[:3], rule, None
+        return HOLDS, "no MXCSR / fenv writer in the body", rule, None
+    init = T.mk("mxcsr0", 32)
+    ctl = T.slice_(final, 6, 10)
+    if ctl is T.slice_(init, 6, 10):
+        nw = sum(1 for e in S.effects if e[0] == "ldmxcsr")
+        return HOLDS, "%d ldmxcsr, control bits 6..15 restored from the stmxcsr value" % nw, rule, None
+    # which bit differs
+    for b in range(6, 16):
+        if T.slice_(final, b, 1) is not T.slice_(init, b, 1):
+            nm = {6: "DAZ", 13: "RC0", 14: "RC1", 15: "FTZ"}.get(b, "exception mask %d" % b)
+            fb = T.slice_(final, b, 1)
+            if fb[0] == "const":
+                return REFUTED, "MXCSR bit %d (%s) is left at %d" % (b, nm, fb[2]), rule, {
+                    "mxcsr_bit": b, "enter_with": 1 - fb[2]}
+            return UNDECIDED, "MXCSR bit %d (%s) = %s" % (b, nm, T.show(fb, 3)), rule, None
+    return UNDECIDED, "MXCSR final value %s" % T.show(final, 3), rule, None
+
+
 FAMILIES = {
+    "fpclass": fam_fpclass,
+    "round": fam_round,
+    "convert": fam_convert,
     "memory": fam_memory,
     "select": fam_select,
     "bitcount": fam_bitcount,
